@@ -130,6 +130,11 @@ async def _body(name, spec):
             Boom() if out == 'raise_empty' else BoomBase(name))
         log('raise', name, exc)
         raise exc
+    if out == 'selfcancel':
+        # the body ends by raising CancelledError of its own accord (nobody
+        # cancelled it): its task ends up cancelled rather than finished
+        log('selfcancel', name)
+        raise asyncio.CancelledError()
     val = Val(name)
     log('end', name, val)
     return val
@@ -498,7 +503,25 @@ def run_one(scn, prefix=(), snap=False, drain=True, max_iter=4000):
                 ctx.snaps.append((len(ctx.log), loop.vtime, loop.iter,
                                   _snap(built)))
         loop.on_iter = on_iter
+        first_ok = True
+        if scn.get('rerun'):
+            # non-initial state: the same tree has been run once already, to
+            # completion and along the default schedule; only the second run
+            # is explored and observed
+            chooser.frozen = True
+            try:
+                built.top.run()
+                loop.drive(None)
+            except (VL.Deadlock, VL.Horizon):
+                first_ok = False
+            except Exception:
+                pass
+            chooser.frozen = False
+            del ctx.log[:]
+            del ctx.snaps[:]
         try:
+            if not first_ok:
+                raise VL.Horizon()
             res = built.top.run()
             ex.outcome = ('return', res)
         except VL.Deadlock:
